@@ -132,6 +132,7 @@ OPS_FULL = [
     ('release',),
     ('remove', [0]),
     ('remove', [1, 'absent']),
+    ('remove', ['absent', 0, 1]),
     ('visits', [(0, '<urn:uuid:v1>', 'DIGEST1')]),
     ('visits', [(0, '<urn:uuid:v2>', 'DIGEST2'), (1, '<urn:uuid:v3>', 'DIGEST1')]),
     ('revisit', 0, 'DIGEST1'),
@@ -141,7 +142,7 @@ OPS_FULL = [
     ('contains', 1),
     ('count',),
 ]
-OPS_REDUCED = [OPS_FULL[i] for i in (0, 1, 2, 4, 7, 8, 10, 11, 12, 13, 14, 16, 18, 22, 23, 26, 27, 32)]
+OPS_REDUCED = [OPS_FULL[i] for i in (0, 1, 2, 4, 7, 8, 10, 11, 12, 13, 14, 16, 18, 22, 23, 25, 27, 28, 33)]
 
 
 def url_of(x):
